@@ -109,15 +109,20 @@ type Ctx struct {
 	linMemo   map[int]*linForm
 	fresh     int
 	liftDepth int
+	eqDepth   int
+	eqMemo    map[[2]int]*Term
+	quantMemo map[int]bool
 	// Small, when set, reports that a term's value as a signed integer is known to be of small magnitude
 	// (|t| < 2^56), so that sums and differences of a few such terms cannot wrap.
 	Small func(t *Term) bool
+	// NonNeg, when set, reports that a 64-bit term is a non-negative quantity of small magnitude (< 2^50).
+	NonNeg func(t *Term) bool
 	// Distinct, when set, decides syntactically that two bit-vector terms can never be equal.
 	Distinct func(a, b *Term) bool
 }
 
 func NewCtx() *Ctx {
-	return &Ctx{table: map[string]*Term{}, Funcs: map[string]*Func{}, Vars: map[string]*Term{}, linMemo: map[int]*linForm{}}
+	return &Ctx{table: map[string]*Term{}, Funcs: map[string]*Func{}, Vars: map[string]*Term{}, linMemo: map[int]*linForm{}, eqMemo: map[[2]int]*Term{}, quantMemo: map[int]bool{}}
 }
 
 // NextStamp returns a new monotonically increasing stamp (shared by symbols and allocations).
@@ -248,6 +253,24 @@ func (c *Ctx) App(f *Func, args ...*Term) *Term {
 }
 
 func (t *Term) IsConst() bool { return t.Op == OConst }
+
+// HasQuantifier reports whether a quantifier occurs in t.
+func (c *Ctx) HasQuantifier(t *Term) bool {
+	if v, ok := c.quantMemo[t.ID]; ok {
+		return v
+	}
+	r := t.Op == OForall
+	if !r {
+		for _, a := range t.Args {
+			if c.HasQuantifier(a) {
+				r = true
+				break
+			}
+		}
+	}
+	c.quantMemo[t.ID] = r
+	return r
+}
 func (t *Term) IsTrue() bool  { return t.Op == OTrue }
 func (t *Term) IsFalse() bool { return t.Op == OFalse }
 
@@ -401,6 +424,24 @@ func (c *Ctx) Ite(cond, a, b *Term) *Term {
 }
 
 func (c *Ctx) Eq(a, b *Term) *Term {
+	if a == b {
+		return c.True()
+	}
+	key := [2]int{a.ID, b.ID}
+	if a.ID > b.ID {
+		key = [2]int{b.ID, a.ID}
+	}
+	if r, ok := c.eqMemo[key]; ok {
+		return r
+	}
+	c.eqDepth++
+	r := c.eq(a, b)
+	c.eqDepth--
+	c.eqMemo[key] = r
+	return r
+}
+
+func (c *Ctx) eq(a, b *Term) *Term {
 	if a.Sort != b.Sort {
 		panic(fmt.Sprintf("smt: eq sort mismatch %v %v (%s, %s)", a.Sort, b.Sort, c.Short(a), c.Short(b)))
 	}
@@ -430,10 +471,22 @@ func (c *Ctx) Eq(a, b *Term) *Term {
 		if c.Distinct != nil && c.Distinct(a, b) {
 			return c.False()
 		}
+		if a.IsConst() || b.IsConst() {
+			x, k := a, b
+			if a.IsConst() {
+				x, k = b, a
+			}
+			if x.Op != OVar && x.Op != OApp {
+				ones, zeros := c.knownBits(x, 6)
+				if ones&^k.Val != 0 || zeros&k.Val != 0 {
+					return c.False()
+				}
+			}
+		}
 		// lift equality through ite when a branch decides
 		for _, p := range [][2]*Term{{a, b}, {b, a}} {
 			x, y := p[0], p[1]
-			if x.Op == OIte && (y.IsConst() || y.Op == OVar || y.Op == OApp || y.Op == OIte) {
+			if x.Op == OIte && c.eqDepth < 12 && (y.IsConst() || y.Op == OVar || y.Op == OApp || y.Op == OIte) {
 				e1, e2 := c.Eq(x.Args[1], y), c.Eq(x.Args[2], y)
 				if isBoolConst(e1) || isBoolConst(e2) {
 					return c.Ite(x.Args[0], e1, e2)
@@ -673,6 +726,79 @@ func (c *Ctx) binConst(op Op, a, b *Term) (*Term, bool) {
 	return nil, false
 }
 
+// piece describes a term whose bits [dst, dst+width) are src[lo, lo+width) and whose other bits are zero.
+type piece struct {
+	src            *Term
+	lo, width, dst int
+}
+
+func (c *Ctx) asPiece(t *Term) (piece, bool) {
+	switch t.Op {
+	case OExtract:
+		return piece{t.Args[0], t.P1, t.P0 - t.P1 + 1, 0}, true
+	case OZeroExt:
+		if p, ok := c.asPiece(t.Args[0]); ok {
+			return p, true
+		}
+		return piece{t.Args[0], 0, t.Args[0].Sort.Width, 0}, true
+	case OShl:
+		if t.Args[1].IsConst() {
+			if p, ok := c.asPiece(t.Args[0]); ok {
+				k := int(t.Args[1].Val)
+				if p.dst+k+p.width <= t.Sort.Width {
+					p.dst += k
+					return p, true
+				}
+			}
+		}
+	case OBVOr:
+		// an already joined pair
+		if p, ok := c.asPiece(t.Args[0]); ok {
+			if q, ok := c.asPiece(t.Args[1]); ok {
+				if j, ok := joinTwo(p, q); ok {
+					return j, true
+				}
+			}
+		}
+	}
+	return piece{}, false
+}
+
+func joinTwo(p, q piece) (piece, bool) {
+	if p.src != q.src {
+		return piece{}, false
+	}
+	if q.lo == p.lo+p.width && q.dst == p.dst+p.width {
+		return piece{p.src, p.lo, p.width + q.width, p.dst}, true
+	}
+	if p.lo == q.lo+q.width && p.dst == q.dst+q.width {
+		return piece{p.src, q.lo, p.width + q.width, q.dst}, true
+	}
+	return piece{}, false
+}
+
+// joinPieces rebuilds (x[a:b] placed at d) | (x[b:c] placed at d+(b-a)) as one placed slice.
+func (c *Ctx) joinPieces(a, b *Term, w int) (*Term, bool) {
+	p, ok := c.asPiece(a)
+	if !ok {
+		return nil, false
+	}
+	q, ok := c.asPiece(b)
+	if !ok {
+		return nil, false
+	}
+	j, ok := joinTwo(p, q)
+	if !ok {
+		return nil, false
+	}
+	t := c.Extract(j.src, j.lo+j.width-1, j.lo)
+	t = c.ZeroExt(t, w)
+	if j.dst > 0 {
+		t = c.mk(OShl, t.Sort, []*Term{t, c.Const(uint64(j.dst), w)}, 0, "", 0, 0)
+	}
+	return t, true
+}
+
 // constLeaves: t is a constant or a small ite tree whose leaves are all constants.
 func (c *Ctx) constLeaves(t *Term, budget int) bool {
 	if t.IsConst() || t.Op == OTrue || t.Op == OFalse {
@@ -800,6 +926,9 @@ func (c *Ctx) Bin(op Op, a, b *Term) *Term {
 				}
 			}
 		}
+		if r, ok := c.joinPieces(a, b, w); ok {
+			return r
+		}
 	case OBVXor:
 		if a == b {
 			return c.Const(0, w)
@@ -813,6 +942,9 @@ func (c *Ctx) Bin(op Op, a, b *Term) *Term {
 	case OShl, OLshr, OAshr:
 		if b.IsConst() && b.Val == 0 {
 			return a
+		}
+		if op == OAshr && a.Op == OZeroExt {
+			return c.Bin(OLshr, a, b)
 		}
 		if a.IsConst() && a.Val == 0 {
 			return a
@@ -860,7 +992,7 @@ func (c *Ctx) Cmp(op Op, a, b *Term) *Term {
 		return c.Bool(op == OUle || op == OSle)
 	}
 	if (op == OSlt || op == OSle) && c.Small != nil {
-		if r, ok := c.signedBySmall(op, a, b, 5); ok {
+		if r, ok := c.signedBySmall(op, a, b, 10); ok {
 			return r
 		}
 	}
@@ -873,6 +1005,46 @@ func (c *Ctx) Cmp(op Op, a, b *Term) *Term {
 	if op == OUlt && b.IsConst() && b.Val == 0 {
 		return c.False()
 	}
+	if (op == OUlt || op == OUle) && (a.IsConst() || b.IsConst()) {
+		x, k, constRight := a, b, true
+		if a.IsConst() {
+			x, k, constRight = b, a, false
+		}
+		ones, zeros := c.knownBits(x, 6)
+		if ones != 0 || zeros != 0 {
+			lo, hi := ones, ^zeros&mask(w)
+			switch {
+			case constRight && op == OUlt: // x < k
+				if hi < k.Val {
+					return c.True()
+				}
+				if lo >= k.Val {
+					return c.False()
+				}
+			case constRight && op == OUle:
+				if hi <= k.Val {
+					return c.True()
+				}
+				if lo > k.Val {
+					return c.False()
+				}
+			case !constRight && op == OUlt: // k < x
+				if k.Val < lo {
+					return c.True()
+				}
+				if k.Val >= hi {
+					return c.False()
+				}
+			case !constRight && op == OUle:
+				if k.Val <= lo {
+					return c.True()
+				}
+				if k.Val > hi {
+					return c.False()
+				}
+			}
+		}
+	}
 	if op == OUle && a.IsConst() && a.Val == 0 {
 		return c.True()
 	}
@@ -881,8 +1053,43 @@ func (c *Ctx) Cmp(op Op, a, b *Term) *Term {
 
 // UltNW / UleNW compare magnitudes that are known not to wrap (lengths, indices < 2^48 and small sums of them):
 // a syntactically constant difference decides the comparison.
-func (c *Ctx) UltNW(a, b *Term) *Term { return c.cmpNW(OUlt, a, b, 6) }
-func (c *Ctx) UleNW(a, b *Term) *Term { return c.cmpNW(OUle, a, b, 6) }
+func (c *Ctx) UltNW(a, b *Term) *Term { return c.cmpNW(OUlt, a, b, 10) }
+func (c *Ctx) UleNW(a, b *Term) *Term { return c.cmpNW(OUle, a, b, 10) }
+
+// signOfDiff: -1 if a-b is certainly negative, +1 if certainly positive, 0 if certainly zero, 2 if unknown;
+// le/ge report a<=b / a>=b. Decided from the linear form when every atom is a non-negative small quantity.
+func (c *Ctx) signOfDiff(a, b *Term) (lt, le, gt, ge bool) {
+	if c.NonNeg == nil || a.Sort.Width != 64 {
+		return
+	}
+	d := c.lin(c.Sub(a, b))
+	k := int64(d.k)
+	if k < -(1<<50) || k > 1<<50 {
+		return
+	}
+	allNeg, allPos := true, true
+	for id, co := range d.atoms {
+		sc := int64(co)
+		if sc < -64 || sc > 64 || !c.NonNeg(d.terms[id]) {
+			return
+		}
+		if sc > 0 {
+			allNeg = false
+		}
+		if sc < 0 {
+			allPos = false
+		}
+	}
+	if allNeg {
+		le = k <= 0
+		lt = k < 0
+	}
+	if allPos {
+		ge = k >= 0
+		gt = k > 0
+	}
+	return
+}
 
 func (c *Ctx) cmpNW(op Op, a, b *Term, depth int) *Term {
 	if d, ok := c.DiffConst(a, b); ok {
@@ -891,7 +1098,42 @@ func (c *Ctx) cmpNW(op Op, a, b *Term, depth int) *Term {
 		}
 		return c.Bool(d <= 0)
 	}
+	if lt, le, gt, ge := c.signOfDiff(a, b); lt || le || gt || ge {
+		switch {
+		case op == OUlt && lt:
+			return c.True()
+		case op == OUlt && ge:
+			return c.False()
+		case op == OUle && le:
+			return c.True()
+		case op == OUle && gt:
+			return c.False()
+		}
+	}
 	if depth > 0 {
+		for side := 0; side < 2; side++ {
+			t := a
+			if side == 1 {
+				t = b
+			}
+			if t.Op != OAdd && t.Op != OSub && t.Op != ONeg {
+				continue
+			}
+			if it := c.iteAtom(t); it != nil {
+				tx := c.Subst(t, map[int]*Term{it.ID: it.Args[1]})
+				ty := c.Subst(t, map[int]*Term{it.ID: it.Args[2]})
+				var x, y *Term
+				if side == 0 {
+					x, y = c.cmpNW(op, tx, b, depth-1), c.cmpNW(op, ty, b, depth-1)
+				} else {
+					x, y = c.cmpNW(op, a, tx, depth-1), c.cmpNW(op, a, ty, depth-1)
+				}
+				if isBoolConst(x) && isBoolConst(y) {
+					return c.Ite(it.Args[0], x, y)
+				}
+				break
+			}
+		}
 		if b.Op == OIte {
 			x, y := c.cmpNW(op, a, b.Args[1], depth-1), c.cmpNW(op, a, b.Args[2], depth-1)
 			if isBoolConst(x) || isBoolConst(y) {
@@ -908,6 +1150,51 @@ func (c *Ctx) cmpNW(op Op, a, b *Term, depth int) *Term {
 	return c.Cmp(op, a, b)
 }
 
+// knownBits returns masks of bits known to be one / known to be zero (within the term's width).
+func (c *Ctx) knownBits(t *Term, depth int) (ones, zeros uint64) {
+	w := t.Sort.Width
+	m := mask(w)
+	if depth == 0 {
+		return 0, 0
+	}
+	switch t.Op {
+	case OConst:
+		return t.Val, ^t.Val & m
+	case OBVOr:
+		o1, z1 := c.knownBits(t.Args[0], depth-1)
+		o2, z2 := c.knownBits(t.Args[1], depth-1)
+		return o1 | o2, z1 & z2
+	case OBVAnd:
+		o1, z1 := c.knownBits(t.Args[0], depth-1)
+		o2, z2 := c.knownBits(t.Args[1], depth-1)
+		return o1 & o2, (z1 | z2) & m
+	case OZeroExt:
+		o1, z1 := c.knownBits(t.Args[0], depth-1)
+		iw := t.Args[0].Sort.Width
+		return o1, z1 | (m &^ mask(iw))
+	case OExtract:
+		o1, z1 := c.knownBits(t.Args[0], depth-1)
+		return (o1 >> uint(t.P1)) & m, (z1 >> uint(t.P1)) & m
+	case OLshr:
+		if t.Args[1].IsConst() && t.Args[1].Val < uint64(w) {
+			k := t.Args[1].Val
+			o1, z1 := c.knownBits(t.Args[0], depth-1)
+			return o1 >> k, (z1 >> k) | (m &^ (m >> k))
+		}
+	case OShl:
+		if t.Args[1].IsConst() && t.Args[1].Val < uint64(w) {
+			k := t.Args[1].Val
+			o1, z1 := c.knownBits(t.Args[0], depth-1)
+			return (o1 << k) & m, ((z1 << k) | mask(int(k))) & m
+		}
+	case OIte:
+		o1, z1 := c.knownBits(t.Args[1], depth-1)
+		o2, z2 := c.knownBits(t.Args[2], depth-1)
+		return o1 & o2, z1 & z2
+	}
+	return 0, 0
+}
+
 // signedBySmall decides a signed comparison from a syntactically constant difference of small-magnitude terms.
 func (c *Ctx) signedBySmall(op Op, a, b *Term, depth int) (*Term, bool) {
 	if d, ok := c.DiffConst(a, b); ok && d > -(1<<40) && d < 1<<40 && c.Small(a) && c.Small(b) {
@@ -916,7 +1203,48 @@ func (c *Ctx) signedBySmall(op Op, a, b *Term, depth int) (*Term, bool) {
 		}
 		return c.Bool(d <= 0), true
 	}
+	if c.Small(a) && c.Small(b) {
+		if lt, le, gt, ge := c.signOfDiff(a, b); lt || le || gt || ge {
+			switch {
+			case op == OSlt && lt:
+				return c.True(), true
+			case op == OSlt && ge:
+				return c.False(), true
+			case op == OSle && le:
+				return c.True(), true
+			case op == OSle && gt:
+				return c.False(), true
+			}
+		}
+	}
 	if depth > 0 {
+		// an ite buried in a sum: compare case by case
+		for side := 0; side < 2; side++ {
+			t := a
+			if side == 1 {
+				t = b
+			}
+			if t.Op == OIte || (t.Op != OAdd && t.Op != OSub && t.Op != ONeg) {
+				continue
+			}
+			if it := c.iteAtom(t); it != nil {
+				tx := c.Subst(t, map[int]*Term{it.ID: it.Args[1]})
+				ty := c.Subst(t, map[int]*Term{it.ID: it.Args[2]})
+				var x, y *Term
+				var okx, oky bool
+				if side == 0 {
+					x, okx = c.signedBySmall(op, tx, b, depth-1)
+					y, oky = c.signedBySmall(op, ty, b, depth-1)
+				} else {
+					x, okx = c.signedBySmall(op, a, tx, depth-1)
+					y, oky = c.signedBySmall(op, a, ty, depth-1)
+				}
+				if okx && oky {
+					return c.Ite(it.Args[0], x, y), true
+				}
+				return nil, false
+			}
+		}
 		if a.Op == OIte {
 			x, okx := c.signedBySmall(op, a.Args[1], b, depth-1)
 			y, oky := c.signedBySmall(op, a.Args[2], b, depth-1)
@@ -933,6 +1261,21 @@ func (c *Ctx) signedBySmall(op Op, a, b *Term, depth int) (*Term, bool) {
 		}
 	}
 	return nil, false
+}
+
+// iteAtom returns an ite that occurs as an atom of t's linear form (nil if none).
+func (c *Ctx) iteAtom(t *Term) *Term {
+	l := c.lin(t)
+	best := -1
+	for id, tm := range l.terms {
+		if tm.Op == OIte && (best < 0 || id < best) {
+			best = id
+		}
+	}
+	if best < 0 {
+		return nil
+	}
+	return l.terms[best]
 }
 
 // LinAtoms exposes the linear form of t: constant part and (atom, coefficient) pairs.
